@@ -335,6 +335,11 @@ func (r *runner) skipped() map[string]bool {
 			if _, ok := r.job.Pre[p]; ok {
 				m[t.Key] = true
 			}
+			for _, f := range r.ref.DirOuts[p] {
+				if _, ok := r.job.Pre[f]; ok {
+					m[t.Key] = true
+				}
+			}
 			if r.seedTreeAfterClean != nil {
 				if _, ok := r.seedTreeAfterClean[p]; ok {
 					m[t.Key] = true
